@@ -281,3 +281,48 @@ theorem ownGet_regAll_of_mem {m : Own} {cs : List (Pid × Res)} (hn : (resIds cs
       exact ih hn' h
 
 end QM.Resources
+
+namespace QM.Resources
+
+/-! ### who can remove an id from the registry -/
+
+theorem completeOne_openSet_mono (b : Backend) (x : Pid × Pending) {r : Rid} (h : r ∈ b.openSet) :
+    r ∈ (b.completeOne x).1.openSet := by
+  obtain ⟨p, pd⟩ := x
+  cases pd with
+  | plain ok => exact h
+  | creating ok => cases ok <;> simp [Backend.completeOne, Backend.alloc, h]
+
+theorem completeAll_openSet_mono (b : Backend) (xs : List (Pid × Pending)) {r : Rid} (h : r ∈ b.openSet) :
+    r ∈ (b.completeAll xs).1.openSet := by
+  induction xs generalizing b with
+  | nil => exact h
+  | cons x rest ih => simp only [Backend.completeAll]; exact ih _ (completeOne_openSet_mono b x h)
+
+theorem processCompletions_openSet_mono (b : Backend) (n : Nat) {r : Rid} (h : r ∈ b.openSet) :
+    r ∈ (b.processCompletions n).1.openSet := by
+  rw [processCompletions_eq]
+  exact completeAll_openSet_mono { b with pending := b.pending.drop n } _ h
+
+theorem execute_openSet (b : Backend) (p : Pid) (e : Effect) (w : Bool) {r : Rid} (h : r ∈ b.openSet) :
+    r ∈ (b.execute p e w).1.openSet ∨ (e.kind.shape = .closeSync ∧ e.rid = r) := by
+  unfold Backend.execute Backend.alloc
+  cases hs : e.kind.shape <;> simp only
+  · split <;> simp [h]
+  · simp [h]
+  · split <;> simp [h]
+  · split
+    · split <;> simp [h]
+    · simp [h]
+  · split <;> simp [h]
+  · split <;> simp [h]
+  · split
+    · by_cases hr : e.rid = r
+      · exact .inr ⟨trivial, hr⟩
+      · refine .inl ?_
+        simp only [List.mem_filter, h, ne_eq, decide_not, Bool.not_eq_eq_eq_not, Bool.not_true,
+          decide_eq_false_iff_not, true_and]
+        exact fun hc => hr hc.symm
+    · simp [h]
+
+end QM.Resources
